@@ -14,7 +14,65 @@ IMPORTS = {"calls": ["os", "strings"], "netcall": ["net", "time"], "strbuild": [
            "fmtcall": ["fmt"]}
 
 
+# ---- "feat": functions described by a feature tuple (C19: pairs whose structural similarity lies on
+# either side of the rename threshold).  k indexes FEATS, a fixed, seeded table of feature records.
+import random as _random
+FEAT_TYPES = ["int", "string", "[]int", "bool", "float64", "map[string]int"]
+FEAT_CALLS = ["strings.ToUpper", "os.Getenv", "strconv.Itoa", "time.Sleep", "strings.Repeat", "os.Getpid"]
+
+
+def _mk_feats(n=600):
+    r = _random.Random(190019)
+    out = []
+    for _ in range(n):
+        out.append({"params": [r.choice(FEAT_TYPES) for _ in range(r.choice([1, 2, 2, 3]))],
+                    "rets": [r.choice(["int", "string", "bool", "error"]) for _ in range(r.choice([1, 1, 2]))],
+                    "loops": r.choice([0, 1, 1, 2]), "branches": r.choice([0, 1, 2, 3, 4]),
+                    "calls": r.sample(FEAT_CALLS, r.choice([0, 1, 2, 3])), "range": r.random() < 0.3,
+                    "defer": r.random() < 0.15, "panic": r.random() < 0.15, "ops": r.sample(["*", "-", "/", "%", "&", "<<"], r.choice([0, 1, 2, 3]))})
+    return out
+
+
+FEATS = _mk_feats()
+
+
+def feat_imports(k):
+    return sorted({c.split(".")[0] for c in FEATS[k]["calls"]})
+
+
+def feat_body(name, k, edit=None):
+    f = FEATS[k]
+    op = "-" if edit == "op" else "+"
+    ps = ", ".join("p%d %s" % (i, t) for i, t in enumerate(f["params"]))
+    L = ["func %s(%s) (%s) {" % (name, ps, ", ".join(f["rets"])), "\ts := %d" % (7 if edit == "const" else 0), "\tt := \"\"", "\t_ = t"]
+    if edit == "call":
+        L.append("\tprintln(s)")
+    for i, t in enumerate(f["params"]):
+        L.append({"int": "\ts = s %s p%d" % (op, i), "string": "\tt += p%d" % i, "[]int": "\ts += len(p%d)" % i, "bool": "\t_ = p%d" % i,
+                  "float64": "\ts += int(p%d)" % i, "map[string]int": "\ts += len(p%d)" % i}[t])
+    if f["defer"]:
+        L.append("\tdefer println(\"done\")")
+    for j in range(f["loops"]):
+        L.append("\tfor i%d := 0; i%d < s; i%d++ {\n\t\ts += i%d * %d\n\t}" % (j, j, j, j, j + 2))
+    for j in range(f["branches"]):
+        L.append("\tif s > %d {\n\t\ts -= %d\n\t}" % (10 * (j + 1), j + 3))
+    for o in f["ops"]:
+        L.append("\ts = (s + 3) %s 2" % o)
+    for c in f["calls"]:
+        L.append({"strings.ToUpper": "\tt = strings.ToUpper(t)", "os.Getenv": "\tt += os.Getenv(t)", "strconv.Itoa": "\tt += strconv.Itoa(s)",
+                  "time.Sleep": "\ttime.Sleep(0)", "strings.Repeat": "\tt = strings.Repeat(t, 2)", "os.Getpid": "\ts += os.Getpid()"}[c])
+    if f["range"]:
+        L.append("\tfor _, c := range t {\n\t\ts += int(c)\n\t}")
+    if f["panic"]:
+        L.append("\tif s < -1000 {\n\t\tpanic(\"low\")\n\t}")
+    L.append("\treturn " + ", ".join({"int": "s", "string": "t", "bool": "s > 0", "error": "nil"}[r] for r in f["rets"]))
+    L.append("}")
+    return "\n".join(L) + "\n"
+
+
 def body(shape, name, k, edit=None):
+    if shape == "feat":
+        return feat_body(name, k, edit)
     op = "-" if edit == "op" else "+"
     k2 = k + (7 if edit == "const" else 0)
     extra = "\tprintln(a)\n" if edit == "call" else ""
@@ -97,6 +155,8 @@ def render_file(pkg, funcs, header_comment=None):
     imports = set()
     for f in funcs:
         imports.update(IMPORTS.get(f["shape"], []))
+        if f["shape"] == "feat":
+            imports.update(feat_imports(f["k"]))
     out = []
     if header_comment:
         out.append("// %s\n" % header_comment)
